@@ -123,6 +123,9 @@ POOL = [
     ("codec-hex", "hex"), ("codec-rot13", "rot13"), ("codec-undefined", "undefined"),
     ("field-name", "customer_id"), ("field-names", "customer_id, customer_id"), ("keyword", "class"),
     ("type-name", "Integer"), ("type-dotted", "fields.Integer"), ("check-name", "IsUnique"),
+    # names that mean something elsewhere in a data format: other properties and the object's own attributes
+    ("property-format", "Format"), ("property-sheet", "Sheet"), ("property-quoting", "quoting"),
+    ("attribute-is-valid", "is valid"), ("attribute-is-valid-underscore", "is_valid"),
 ]
 POOL_NAMES = [name for name, _ in POOL]
 assert len(set(POOL_NAMES)) == len(POOL_NAMES)
